@@ -53,6 +53,8 @@ func runC07(r *Runner, g *Gen, tier string) string {
 		}
 		r.Do(makeRegTraceOp(f.name, k, s), true, "regtrace.random")
 	}
+	// shared interning tables (the protocol itself is C19's subject): large table, then a race
+	internLargeOps(r, scale(tier, 3, 40))
 	n := scale(tier, 300, 20000)
 	for i := 0; i < n; i++ {
 		f := schedFamilies[g.r.Intn(len(schedFamilies))]
